@@ -94,6 +94,7 @@ type hdr struct{ k, v string }
 var (
 	frontLayer   string
 	presetHeader bool
+	callerBuilt  bool // the request carries no RequestURI (it was built in code, not parsed)
 )
 
 type fmtLogger struct{}
@@ -181,7 +182,8 @@ func genSpec(t *rapid.T) *spec {
 	s.tls = rapid.Bool().Draw(t, "tls")
 	s.passHost = rapid.Bool().Draw(t, "passHost")
 	otherForwarders = rapid.IntRange(0, 2).Draw(t, "otherForwarderInProcess") == 0
-	frontLayer = rapid.SampledFrom([]string{"", "", "", "stream-verbose", "buffer", "buffer-verbose", "roundrobin-verbose"}).Draw(t, "frontLayer")
+	frontLayer = rapid.SampledFrom([]string{"", "", "", "stream-verbose", "buffer", "buffer-verbose", "roundrobin-verbose", "statelistener"}).Draw(t, "frontLayer")
+	callerBuilt = rapid.IntRange(0, 3).Draw(t, "callerBuiltRequest") == 0
 	presetHeader = rapid.IntRange(0, 3).Draw(t, "presetResponseHeader") == 0
 	s.tlsBackend = rapid.IntRange(0, 3).Draw(t, "tlsBackend") == 0
 	if s.method == "POST" || s.method == "PUT" {
@@ -290,6 +292,14 @@ func check(fatalf func(string, ...any), s *spec) (discarded bool) {
 		scheme = "https"
 	}
 	req.URL = &url.URL{Scheme: scheme, Host: be.Addr()}
+	if callerBuilt && !s.absolute {
+		// a request put together in code (no request line was ever parsed): its target lives in
+		// req.URL alone
+		if tu, err := url.ParseRequestURI(s.target); err == nil && tu.RequestURI() == s.target {
+			req.URL.Path, req.URL.RawPath, req.URL.RawQuery, req.URL.ForceQuery = tu.Path, tu.RawPath, tu.RawQuery, tu.ForceQuery
+			req.RequestURI = ""
+		}
+	}
 	fwd := forward.New(s.passHost)
 	fwd.Transport = transport
 	// other forwarders with the opposite setting exist in the same process (built later, and used)
@@ -321,7 +331,12 @@ func check(fatalf func(string, ...any), s *spec) (discarded bool) {
 			return
 		}
 		h = bf
+	case "statelistener":
+		h = forward.NewStateListener(fwd, func(*url.URL, int) {})
 	case "roundrobin-verbose":
+		if req.RequestURI == "" {
+			break // a balancer replaces req.URL: a caller-built request has nowhere else to keep its target
+		}
 		rr, err := roundrobin.New(fwd, roundrobin.Verbose(true), roundrobin.Logger(fmtLogger{}))
 		if err != nil {
 			fatalf("roundrobin.New: %v", err)
@@ -527,6 +542,11 @@ func check(fatalf func(string, ...any), s *spec) (discarded bool) {
 	}
 	if presetHeader {
 		wantResp["Cache-Control"] = append([]string{"private"}, wantResp["Cache-Control"]...)
+	}
+	if s.method == "HEAD" { // no body, but the length the backend announced for it is an end-to-end header
+		if cl := sent.Values("Content-Length"); len(cl) != 1 || cl[0] != "2" {
+			bad("HEAD: the backend announced Content-Length: 2, the client got %q", cl)
+		}
 	}
 	for k, vs := range wantResp {
 		if g := sent.Values(k); strings.Join(g, "\x00") != strings.Join(vs, "\x00") {
